@@ -1152,6 +1152,46 @@ func (x *Exec) evalBuiltinSpec(ce *CEnv, name string, args []Expr) (*Val, bool) 
 		return x.evalQuant(ce, name, args), true
 	case "sum":
 		return x.evalSum(ce, args), true
+	case "goconst":
+		// goconst("expr"): a Go constant expression evaluated by go/types in the scope of
+		// the contract's package, exactly as the compiler folds it (untyped constant
+		// arithmetic is exact; rounding happens once, on conversion to the typed value)
+		str, ok := args[0].(*EString)
+		if len(args) != 1 || !ok {
+			cfail("goconst(\"expr\") expected")
+		}
+		pkg := x.pkgOf(ce)
+		if pkg == nil {
+			cfail("goconst: no package")
+		}
+		tv, err := types.Eval(x.prog.Fset, pkg.Pkg, token.NoPos, str.V)
+		if err != nil || tv.Value == nil {
+			cfail("goconst(%s): not a constant expression (%v)", str.V, err)
+		}
+		return x.constVal(defaultType(tv.Type), tv.Value), true
+	case "lastcall":
+		// lastcall("callee"): the value returned by the one call of callee in the body of
+		// the function under contract (meaningful on paths through that call)
+		str, ok := args[0].(*EString)
+		if len(args) != 1 || !ok {
+			cfail("lastcall(\"callee\") expected")
+		}
+		if ce.fc != nil && x.rootC != nil && ce.fc != x.rootC {
+			// inside a callee's contract used at a call site: the value its body drew is
+			// not visible to the caller - some value of the result type (existential)
+			f := x.prog.Funcs[normalizeFuncName(str.V)]
+			if f == nil || f.Signature.Results().Len() != 1 {
+				cfail("lastcall(%s): unknown function or not single-valued", str.V)
+			}
+			return x.havoc(f.Signature.Results().At(0).Type(), "lastcall", ce.guard), true
+		}
+		m := x.callRes[normalizeFuncName(str.V)]
+		if len(m) != 1 {
+			cfail("lastcall(%s): the function under contract has %d calls of it so far (exactly one is required)", str.V, len(m))
+		}
+		for _, v := range m {
+			return v, true
+		}
 	case "loopentry":
 		// loopentry(v): the value header phi v of the enclosing loop had when the loop was entered
 		id, ok := args[0].(*EIdent)
